@@ -85,6 +85,10 @@ func c14BaseFile(r *Rand, d *Decl) []iniLine {
 					if len(v) > 20000 {
 						v = strconv.Quote("long " + strings.Repeat("z", 9000))
 					}
+					if r.Chance(1, 6) {
+						// a value that spans several chunks of the line reader, with a recognisable tail
+						v = strconv.Quote(strings.Repeat("v", r.Range(4080, 4110)) + "-tail" + fmt.Sprint(r.Intn(1000)))
+					}
 				default:
 					v = GenScalarTextSimple(r, o)
 					if strings.HasPrefix(v, "\x00") {
@@ -189,6 +193,24 @@ func c14Run(c *Ctx) {
 		c.Case(func() interface{} { return map[string]interface{}{"declaration": d.Describe(), "ini": clip(baseText, 3000)} })
 		return
 	}
+	// exact values of plain string options (in particular values longer than the 4096-byte read buffer)
+	last := map[*Opt]string{}
+	for _, l := range base {
+		if l.Kind == "entry" && l.Opt.T.K == KString && l.Opt.T.W == WScalar {
+			v := l.Text[strings.Index(l.Text, " = ")+3:]
+			if strings.HasPrefix(v, "\"") {
+				v, _ = strconv.Unquote(v)
+			}
+			last[l.Opt] = v
+		}
+	}
+	for o, v := range last {
+		if got := snap0["o"+itoa(o.ID)]; got != strconv.Quote(v) {
+			c.Violate("entry-value", "option %s: the file says %s (%d bytes), the field holds %s", o.Field, clip(strconv.Quote(v), 80), len(v), clip(got, 80))
+			c.Case(func() interface{} { return map[string]interface{}{"declaration": d.Describe(), "ini": clip(baseText, 6000)} })
+			return
+		}
+	}
 	// noisy variant
 	var noisy []string
 	var meta []iniLine
@@ -208,6 +230,16 @@ func c14Run(c *Ctx) {
 	switch mode {
 	case 1: // noise invariance
 		text := joinLines(r, noisy, crlf)
+		if n := len(noisy); n > 0 && meta[n-1].Kind == "entry" && r.Chance(1, 3) {
+			// the last entry padded with trailing blanks to an exact multiple of the line reader's buffer, and no
+			// final newline
+			lines := append([]string{}, noisy...)
+			target := 4096 * r.Range(1, 2)
+			if len(lines[n-1]) < target {
+				lines[n-1] += strings.Repeat(" ", target-len(lines[n-1]))
+			}
+			text = strings.Join(lines, "\n")
+		}
 		c.Case(func() interface{} {
 			return map[string]interface{}{"declaration": d.Describe(), "base": clip(baseText, 2000), "noisy": clip(text, 3000), "crlf": crlf}
 		})
@@ -350,6 +382,45 @@ func c14Fault(c *Ctx, d *Decl, noisy []string, meta []iniLine, crlf int) {
 		}
 	case "unknown-section":
 		line = fmt.Sprintf("[No Such Group %d]", r.Intn(100))
+		// near misses of real sections: a command name plus one character, with or without a group part, a group
+		// description plus a character, a command path with a wrong separator
+		var real []string
+		for _, m := range meta {
+			if m.Kind == "header" {
+				real = append(real, m.Sect)
+			}
+		}
+		for _, cm := range d.Cmds[1:] {
+			real = append(real, cm.Name)
+		}
+		if len(real) > 0 && r.Chance(2, 3) {
+			s := real[r.Intn(len(real))]
+			switch r.Intn(5) {
+			case 0:
+				s += "s"
+			case 1:
+				s = strings.Replace(s, ".", "-", 1) + "2"
+			case 2:
+				s = "x" + s
+			case 3:
+				if i := strings.Index(s, "."); i > 0 {
+					s = s[:i] + "s" + s[i:]
+				} else {
+					s += "-Other Options"
+				}
+			default:
+				s = s + "." + "nothing"
+			}
+			known := false
+			for _, x := range real {
+				if strings.EqualFold(x, s) {
+					known = true
+				}
+			}
+			if !known && !strings.EqualFold(s, "Application Options") {
+				line = "[" + s + "]"
+			}
+		}
 	}
 	_ = cur
 	var lines []string
